@@ -181,6 +181,13 @@ func vfNonceCheckPair(res *vfResult, p *vfPair, scenario string, replay any) {
 			eps[o.Epoch] = true
 		}
 		res.Max("max_epochs_in_one_session", int64(len(eps)))
+		if len(obs) > 3 {
+			head := []string{}
+			for _, o := range obs[:min(len(obs), 12)] {
+				head = append(head, fmt.Sprintf("(e%d,s%d,%s)", o.Epoch, o.Seq, o.Kind))
+			}
+			res.Sample(map[string]any{"scenario": scenario, "endpoint": side.s.Name, "records": len(obs), "epochs": len(eps), "first_records": head})
+		}
 		if cls, what := vfNonceVerdict(obs); cls != "" {
 			ver := vfVerStr(vfCommon(side.s.Conn).LocalVersion)
 			cid := "nocid"
